@@ -80,3 +80,49 @@ theorem crashStates_cons (p : Phys) (o : Op) (os : List Op) (q : Phys) :
   simp [crashStates]
 
 end Store
+
+namespace Store
+/-! ### The data tie: a trusted meta refers to a data record holding the interface it describes -/
+
+/-- `iface t` = the interface (bytes) computed by analysis `t` -/
+def DataOk (iface : Nat → Nat) (p : Phys) : Prop :=
+  ∀ t dt, p.metaR = some (t, dt) → p.data = some dt → iface dt = iface t
+
+theorem dataOk_wData (iface : Nat → Nat) (p : Phys) (t : Nat) (hb : Below p t) : DataOk iface (apply p (.wData t)) := by
+  intro a b h1 h2
+  simp [apply] at h1 h2
+  have := (hb.2.1 a b h1).2
+  omega
+
+theorem dataOk_rm (iface : Nat → Nat) (p : Phys) (h : DataOk iface p) : DataOk iface (apply p .rmMetaEx) := by
+  intro a b h1 h2; exact h a b (by simpa [apply] using h1) (by simpa [apply] using h2)
+
+theorem dataOk_wMetaEx (iface : Nat → Nat) (p : Phys) (t : Nat) (h : DataOk iface p) : DataOk iface (apply p (.wMetaEx t)) := by
+  intro a b h1 h2; exact h a b (by simpa [apply] using h1) (by simpa [apply] using h2)
+
+theorem dataOk_wMeta (iface : Nat → Nat) (p : Phys) (t dt : Nat)
+    (h : p.data = some dt → iface dt = iface t) : DataOk iface (apply p (.wMeta t dt)) := by
+  intro a b h1 h2
+  simp [apply] at h1 h2
+  obtain ⟨rfl, rfl⟩ := h1
+  exact h h2
+
+theorem tail_dataOk (iface : Nat → Nat) (p : Phys) (t dt : Nat) (f : Fails) (hd : DataOk iface p)
+    (h : p.data = some dt → iface dt = iface t) :
+    ∀ q ∈ crashStates p (tailOps true t dt f), DataOk iface q ∧ q.data = p.data := by
+  intro q hq
+  unfold tailOps at hq
+  simp only [if_true] at hq
+  have d1 := dataOk_rm iface p hd
+  have d2 : DataOk iface (apply (apply p .rmMetaEx) (.wMeta t dt)) := dataOk_wMeta iface _ t dt (by simpa [apply] using h)
+  have d3 := dataOk_wMetaEx iface _ t d2
+  cases hr : f.rm <;> cases hm : f.metaR <;> cases he : f.metaEx <;>
+    simp [hr, hm, he, crashStates] at hq <;>
+    (rcases hq with rfl | rfl | rfl | rfl) <;>
+    first
+    | exact ⟨hd, rfl⟩
+    | exact ⟨d1, rfl⟩
+    | exact ⟨d2, rfl⟩
+    | exact ⟨d3, rfl⟩
+
+end Store
